@@ -7,14 +7,18 @@ MANIFEST = {
     "text": "Coq theorems over an executable model of the undo-log codec (ColumnImage.MarshalJSON/UnmarshalJSON by JDBC type, "
             "json/protobuf serializers, context codec, compressor selection, FlushUndoLog/Undo composition): C08_lossless "
             "(every log over the emitted (JDBC type, Go kind) pairs, every compress configuration, json serializer: what "
-            "flush writes reads back equal up to the executors' equality), C08_total (read_back never panics), C08_ctx, "
-            "C08_base64_exact; the JDBC-type switch, the writer's type switch, SQLType text tables and the compressor "
+            "flush writes reads back equal up to the executors' equality), C08_lossless_protobuf_partial (protobuf serializer, exactly the "
+            "value shapes it preserves; refuted outside), C08_total (read_back never panics), C08_ctx / C08_ctx_map (context codec on "
+            "arbitrary maps), C08_base64_exact; the JDBC-type switch, the writer's type switch, SQLType text tables and the compressor "
             "selection are REGENERATED from the Go source on every run (Gen/UndoSwitch.v) and must satisfy wf_table; the real "
             "FlushUndoLog and the real decode helpers are run on generated logs x configurations, malformed stored columns and "
-            "garbage, and context bytes, the rollback_info document and the decoded log are compared with the model inside Coq.",
+            "garbage, and END TO END through the shared AT engine (real proxy, scanner, FlushUndoLog and Undo on fakedb over every supported "
+            "column type), and context bytes, the rollback_info document and the decoded log are compared with the model inside Coq "
+            "(inside the protobuf finding region against the expected lossy outcome); rollback must restore the table dump exactly.",
     "note": "Trusted: Coq kernel, tools/xlate undo (case bodies matched against templates, anything else = GrUnknown), harness "
             "undorun, Go's time/encoding/json/protobuf text layers and the compressors as hypotheses exercised on every run. "
-            "Known findings: protobuf serializer loses integer/bytes/time typing; Lz4 compressor refuses incompressible logs.",
+            "Known findings: protobuf serializer loses integer/bytes/time typing; Lz4 compressor refuses incompressible logs; end to end: "
+            "data validation false-dirty on DECIMAL/BINARY/BLOB/non-binary32 FLOAT columns, scan error on LONGBLOB/YEAR/TIME.",
     "technique": "Coq proof over translator-regenerated tables + differential correspondence (vm_compute) + direct oracle",
 }
 TABLES = [("undo", "UndoSwitch.v")]
